@@ -547,7 +547,17 @@ class ScriptGen:
             return "(let (%s) %s)" % (" ".join("(%s %s)" % (self.spell(nm), bt) for nm, _, bt in binds), self.term(so, depth - 1, inner))
         if k < 0.16:
             self.features.add("annotation")
-            return "(! %s :named %s)" % (t(so), self.fresh("n"))
+            extra = ""
+            k2 = r.random()
+            if k2 < 0.25:
+                self.features.add("annotation-sexpr-value")
+                extra = " :pattern ((p x) (q (r y) z))"
+            elif k2 < 0.4:
+                extra = " :weight 3 :flag"
+            elif k2 < 0.5:
+                self.features.add("annotation-sexpr-value")
+                extra = " :note (a (b (c)) d) :other v"
+            return "(! %s :named %s%s)" % (t(so), self.fresh("n"), extra)
         if k < 0.22:
             self.features.add("ite")
             return "(ite %s %s %s)" % (t("Bool"), t(so), t(so))
